@@ -15,6 +15,7 @@
    (skelora) -> the executable form of `SkelInv` evaluated on the IMPLEMENTATION's before/after data: `ok` | `fail retained|demands|map`
 -/
 import WntrModel.Model.Morph
+import WntrModel.Gen.MorphShape
 open Wntr.Morph
 
 def trim (s : String) : String := s.trimAscii.toString
@@ -173,8 +174,6 @@ def doSkelOracle (fs : List String) : String :=
 def parseF (s : String) : Option Float := (fun n => Float.ofBits (UInt64.ofNat n)) <$> (trim s).toNat?
 def showF (x : Float) : String := toString x.toBits.toNat
 
-def codeExp : MergeExp Float := { a := 4.87, b := 1.85, e := 0.54, c := 2.63 }
-
 def parseMPipe (s : String) : Option (MPipe Float) :=
   match (s.splitOn ",").map trim with
   | [l, d, c, m, st] => do some { length := ← parseF l, diam := ← parseF d, rough := ← parseF c, minor := ← parseF m, status := ← st.toNat? }
@@ -186,9 +185,21 @@ def doMerge (fs : List String) : String :=
   | [k, a, b] =>
     match parseMPipe a, parseMPipe b with
     | some p0, some p1 =>
-      let ge := fun (x y : Float) => decide (x ≥ y)
-      let r := if k == "s" then seriesProps Float.pow codeExp ge p0 p1 else parallelProps Float.pow codeExp ge p0 p1
-      s!"ok {showF r.length} {showF r.diam} {showF r.rough} {showF r.minor} {r.status}"
+      -- the expression trees regenerated from the source (Gen.seriesMX / Gen.parallelMX), evaluated in binary64
+      let d := if decide (p0.diam ≥ p1.diam) then p0 else p1
+      let nan : Float := 0.0 / 0.0
+      let env : String → Float := fun n =>
+        match n.splitOn "." with
+        | [o, attr] =>
+          let p := if o == "pipe0" then p0 else if o == "pipe1" then p1 else d
+          if attr == "length" then p.length else if attr == "diameter" then p.diam else if attr == "roughness" then p.rough
+          else if attr == "minor_loss" then p.minor else nan
+        | _ => nan
+      let litv : Nat → Nat → Float := fun n m => n.toFloat / m.toFloat
+      let m := if k == "s" then Wntr.Morph.Gen.seriesMX else Wntr.Morph.Gen.parallelMX
+      let ev := fun (e : MX) => e.eval Float.pow litv env
+      let st := if m.status == "dominant_pipe.status" then d.status else 99
+      s!"ok {showF (ev m.length)} {showF (ev m.diam)} {showF (ev m.rough)} {showF (ev m.minor)} {st}"
     | _, _ => "bad-op"
   | _ => "bad-op"
 
